@@ -425,7 +425,7 @@ type histReport struct {
 	obs       string
 	stateKey  string
 	harness   string
-	readPanic bool
+	readPanic bool // a cursor read panicked or failed: TSM file references may be leaked, Close may hang
 }
 
 // closeHung closes the fixture in the background and reports whether that is still blocked after 30 s
@@ -525,6 +525,9 @@ func runHist(h Hist) (rep histReport) {
 		return
 	}
 	rep.obs = ob.String()
+	if len(ob.CursorErr) > 0 {
+		rep.readPanic = true // a cursor constructor that fails leaks its TSM references as well
+	}
 	for _, mm := range Compare(ob, model) {
 		rep.viol = append(rep.viol, Mismatch{vlib.JoinSig(mm.Clause, ctx), mm.Msg})
 		break // first divergence only (schema before data, raw before cursor)
